@@ -1,6 +1,269 @@
 import Netpol.Model.Engine
 import Netpol.Spec.K8s
+import Netpol.Proofs.EngineLayer
+
+/-! C01: what `list` reports for a pair of peers is exactly what Kubernetes NetworkPolicy
+semantics allow.
+
+The model of `allAllowedConnectionsBetweenPeers` (`Engine.peerConns`, `Netpol.Model.Engine`)
+against the declarative pointwise specification `Spec.allowed` (`Netpol.Spec.K8s`). Only the
+property statements are here; the proofs are in `Netpol.Proofs.EngineLayer`, on top of
+`Netpol.Proofs.NPLayer` (one NetworkPolicy), `Netpol.Proofs.ANPLayer` (admin policies) and
+`Netpol.Proofs.ConnSet` (connection sets).
+
+Vocabulary.
+* `Engine.toView e` — the objects of the engine as the specification sees them.
+* `Engine.Valid e` — what API validation and `sortANPs` guarantee: rule ports are legal numbers,
+  no rule peer is empty, admin rules have at least one peer, the BANP has no `Pass` rule, and the
+  slice of ANPs is sorted by priority (`Engine.build_sorted`: `build` always establishes this).
+* `KPeer.Concrete k a` — `k` is a real pod with its namespace object, or the single address `a`;
+  `KPeer.toEnd k a` is then the specification's end. IP *ranges* are reduced to single addresses
+  by `list_ip_range_src` / `list_ip_range_dst`.
+* `KPeer.DstOK k` — a destination pod is real and its container ports are legal port numbers.
+* `ConnSet.den c pr x` — port `x` of protocol `pr` is in the connection set `c`; `inRange x` is
+  `1 ≤ x ≤ 65535`. -/
 namespace Netpol.Properties.C01
-open Netpol
+open Netpol Engine
+
+/-! ### the general statement -/
+
+/-- between two different peers, the reported set is well-formed and holds exactly the
+(protocol, port) pairs the specification allows -/
+theorem list_exact_pair (e : Engine) (hv : e.Valid) (src dst : KPeer) (a b : Int)
+    (hs : src.Concrete a) (hd : dst.Concrete b) (hdok : dst.DstOK)
+    (hne : Engine.isPodToItself src dst = false) (c : ConnSet) (h : e.peerConns src dst = .ok c) :
+    c.WF ∧ ∀ pr x, c.den pr x ↔ Spec.allowed e.toView (src.toEnd a) (dst.toEnd b) pr x = true :=
+  (peerConns_spec e hv src dst a b hs hd hdok hne).1 c h
+
+/-- a pod to itself: all connections, whatever the policies -/
+theorem list_self (e : Engine) (src dst : KPeer) (h : Engine.isPodToItself src dst = true) :
+    e.peerConns src dst = .ok (ConnSet.mk' true) :=
+  peerConns_self e src dst h
+
+/-- the only way `peerConns` fails on valid objects: a named port in an egress rule, from a pod
+towards an IP block -/
+theorem list_error_only_named_port_on_ip (e : Engine) (hv : e.Valid) (src dst : KPeer) (a b : Int)
+    (hs : src.Concrete a) (hd : dst.Concrete b) (hdok : dst.DstOK)
+    (hne : Engine.isPodToItself src dst = false) (err : Err) (h : e.peerConns src dst = .error err) :
+    err = .namedPortOnIP ∧ dst.isPod = false ∧ src.isPod = true :=
+  (peerConns_spec e hv src dst a b hs hd hdok hne).2 err h
+
+/-- in particular there is no failure between two pods -/
+theorem list_pods_never_fail (e : Engine) (hv : e.Valid) (src dst : KPeer) (a b : Int)
+    (hs : src.Concrete a) (hd : dst.Concrete b) (hdok : dst.DstOK) (hp : dst.isPod = true)
+    (hne : Engine.isPodToItself src dst = false) : ∃ c, e.peerConns src dst = .ok c := by
+  cases h : e.peerConns src dst with
+  | ok c => exact ⟨c, rfl⟩
+  | error err =>
+    have := (list_error_only_named_port_on_ip e hv src dst a b hs hd hdok hne err h).2.1
+    rw [hp] at this
+    cases this
+
+/-! ### engines without admin policies: NetworkPolicy semantics alone -/
+
+/-- one direction under NetworkPolicies only: an external address and an ungoverned pod are
+unrestricted; a governed pod accepts what some rule of some governing policy allows -/
+def npOnlyDir (v : Spec.View) (self other dst : Spec.End) (d : Dir) (pr : Proto) (x : Int) : Bool :=
+  match self with
+  | .ip _ => true
+  | .pod p _ => if Spec.governs v p d then Spec.npAllows v p other dst d pr x else true
+
+theorem allowedDir_np_only (v : Spec.View) (ha : v.anps = []) (hb : v.banp = none)
+    (self other dst : Spec.End) (d : Dir) (pr : Proto) (x : Int) :
+    Spec.allowedDir v self other dst d pr x = npOnlyDir v self other dst d pr x := by
+  cases self with
+  | ip a => rfl
+  | pod p l =>
+    simp only [Spec.allowedDir, npOnlyDir, Spec.anpVerdict, Spec.banpVerdict, Spec.firstMatch, ha,
+      hb, List.mergeSort_nil, List.flatMap_nil, List.find?_nil, Option.map_none]
+    cases Spec.governs v p d <;> rfl
+
+/-- without admin policies validity is the validity of the NetworkPolicy rules -/
+theorem valid_np_only (e : Engine) (ha : e.anps = []) (hb : e.banp = none)
+    (h : ∀ np ∈ e.netpols, (∀ r ∈ np.ingress, r.Valid) ∧ (∀ r ∈ np.egress, r.Valid)) : e.Valid where
+  npRules := h
+  anpRules := by rw [ha]; intro a h; cases h
+  banpRules := by rw [hb]; intro b h; cases h
+  anpSorted := by rw [ha]; exact List.Pairwise.nil
+
+/-- `list_exact_pair` for an engine that holds NetworkPolicies only -/
+theorem list_exact_pair_np_only (e : Engine) (ha : e.anps = []) (hb : e.banp = none)
+    (hv : ∀ np ∈ e.netpols, (∀ r ∈ np.ingress, r.Valid) ∧ (∀ r ∈ np.egress, r.Valid))
+    (src dst : KPeer) (a b : Int)
+    (hs : src.Concrete a) (hd : dst.Concrete b) (hdok : dst.DstOK)
+    (hne : Engine.isPodToItself src dst = false) (c : ConnSet) (h : e.peerConns src dst = .ok c) :
+    c.WF ∧ ∀ pr x, c.den pr x ↔ (inRange x ∧
+      npOnlyDir e.toView (src.toEnd a) (dst.toEnd b) (dst.toEnd b) .egress pr x = true ∧
+      npOnlyDir e.toView (dst.toEnd b) (src.toEnd a) (dst.toEnd b) .ingress pr x = true) := by
+  obtain ⟨hw, hden⟩ := list_exact_pair e (valid_np_only e ha hb hv) src dst a b hs hd hdok hne c h
+  refine ⟨hw, fun pr x => ?_⟩
+  rw [hden]
+  simp only [Spec.allowed, Bool.and_eq_true, Spec.inPortRange_iff,
+    allowedDir_np_only e.toView ha hb, and_assoc]
+
+/-- two ungoverned pods (no policy selects either in the relevant direction): all connections -/
+theorem list_ungoverned_all (e : Engine) (ha : e.anps = []) (hb : e.banp = none)
+    (hv : ∀ np ∈ e.netpols, (∀ r ∈ np.ingress, r.Valid) ∧ (∀ r ∈ np.egress, r.Valid))
+    (p q : Pod) (nsp nsq : NsObj) (hp : p.isRepresentative = false)
+    (hq : q.isRepresentative = false ∧ q.ValidPorts)
+    (hne : Engine.isPodToItself (.pod p (some nsp)) (.pod q (some nsq)) = false)
+    (hgp : Spec.governs e.toView p .egress = false) (hgq : Spec.governs e.toView q .ingress = false)
+    (c : ConnSet) (h : e.peerConns (.pod p (some nsp)) (.pod q (some nsq)) = .ok c) :
+    ∀ pr x, c.den pr x ↔ inRange x := by
+  obtain ⟨_, hden⟩ := list_exact_pair_np_only e ha hb hv (.pod p (some nsp)) (.pod q (some nsq)) 0 0
+    hp hq.1 hq hne c h
+  intro pr x
+  rw [hden]
+  simp [npOnlyDir, KPeer.toEnd, hgp, hgq]
+
+/-! ### IP ranges
+
+The connlist loop queries an IP *range* `.ip [R]` of the partition `disjointIPBlocks`, on which
+every `ipBlock` peer of every rule has constant membership (`Engine.UniformOn e R`). -/
+
+/-- every address of the range has, as a source, the connectivity computed for the range -/
+theorem list_ip_range_src (e : Engine) (R : Iv) (hR : R.lo ≤ R.hi) (hu : e.UniformOn R)
+    (a : Int) (ha : R.mem a) (dst : KPeer) :
+    e.peerConns (.ip [R]) dst = e.peerConns (.ip [⟨a, a⟩]) dst :=
+  peerConns_ip_range_src e R hR hu a ha dst
+
+/-- … and as a destination -/
+theorem list_ip_range_dst (e : Engine) (R : Iv) (hR : R.lo ≤ R.hi) (hu : e.UniformOn R)
+    (a : Int) (ha : R.mem a) (src : KPeer) :
+    e.peerConns src (.ip [R]) = e.peerConns src (.ip [⟨a, a⟩]) :=
+  peerConns_ip_range_dst e R hR hu a ha src
+
+/-- what is reported from an IP range is exactly what the specification allows from each of its
+addresses -/
+theorem list_exact_ip_range_src (e : Engine) (hv : e.Valid) (R : Iv) (hR : R.lo ≤ R.hi)
+    (hu : e.UniformOn R) (a : Int) (ha : R.mem a) (dst : KPeer) (b : Int) (hd : dst.Concrete b)
+    (hdok : dst.DstOK) (c : ConnSet) (h : e.peerConns (.ip [R]) dst = .ok c) :
+    c.WF ∧ ∀ pr x, c.den pr x ↔ Spec.allowed e.toView (.ip a) (dst.toEnd b) pr x = true := by
+  rw [list_ip_range_src e R hR hu a ha dst] at h
+  exact list_exact_pair e hv (.ip [⟨a, a⟩]) dst a b rfl hd hdok rfl c h
+
+/-- what is reported towards an IP range is exactly what the specification allows towards each of
+its addresses -/
+theorem list_exact_ip_range_dst (e : Engine) (hv : e.Valid) (R : Iv) (hR : R.lo ≤ R.hi)
+    (hu : e.UniformOn R) (b : Int) (hb : R.mem b) (src : KPeer) (a : Int) (hs : src.Concrete a)
+    (c : ConnSet) (h : e.peerConns src (.ip [R]) = .ok c) :
+    c.WF ∧ ∀ pr x, c.den pr x ↔ Spec.allowed e.toView (src.toEnd a) (.ip b) pr x = true := by
+  rw [list_ip_range_dst e R hR hu b hb src] at h
+  have hne : Engine.isPodToItself src (.ip [⟨b, b⟩]) = false := by cases src <;> rfl
+  exact list_exact_pair e hv src (.ip [⟨b, b⟩]) a b hs rfl trivial hne c h
+
+/-! ### non-vacuity: a concrete engine -/
+namespace Examples
+attribute [local instance] Engine.decEqExcept
+
+def nsDefault : NsObj := ⟨"default", [("kubernetes.io/metadata.name", "default")]⟩
+def web : Pod :=
+  { ns := "default", name := "web", labels := [("app", "web")], ports := [⟨"http", .TCP, 8080⟩] }
+def client : Pod :=
+  { ns := "default", name := "client", labels := [("app", "client")], ports := [] }
+
+/-- `10.0.0.0/8` except `10.1.0.0/16` -/
+def blk : NPPeer := .ip ⟨0x0A000000, 8⟩ [⟨0x0A010000, 16⟩]
+
+/-- selects `web`; ingress from `client` on the named port `http` and UDP 53; egress to `blk` on
+TCP 443 -/
+def np : NetPol :=
+  { ns := "default", name := "np", podSel := ⟨[("app", "web")], []⟩, types := [],
+    ingress := [⟨[.sel (some ⟨[("app", "client")], []⟩) none],
+      [⟨none, .name "http"⟩, ⟨some .UDP, .num 53 none⟩]⟩],
+    egress := [⟨[blk], [⟨none, .num 443 none⟩]⟩] }
+
+def eng : Engine := { namespaces := [nsDefault], pods := [web, client], netpols := [np] }
+
+def kweb : KPeer := .pod web (some nsDefault)
+def kclient : KPeer := .pod client (some nsDefault)
+/-- 10.0.0.1, and 10.1.0.1 (inside the except) -/
+def ipIn : Int := 167772161
+def ipExcept : Int := 167837697
+
+/-! the hypotheses hold -/
+example : eng.Valid := by decide
+example : eng.anps = [] ∧ eng.banp = none := ⟨rfl, rfl⟩
+example : kweb.Concrete 0 ∧ kclient.Concrete 0 ∧ kweb.DstOK ∧ kclient.DstOK ∧
+    (KPeer.ip [⟨ipIn, ipIn⟩]).Concrete ipIn ∧ (KPeer.ip [⟨ipIn, ipIn⟩]).DstOK := by decide
+example : Engine.isPodToItself kclient kweb = false ∧ Engine.isPodToItself kweb kweb = true := by
+  decide
+/-- validity is not trivially true -/
+example : ¬ ({ eng with netpols := [{ np with ingress := [⟨[.sel none none], []⟩] }] } : Engine).Valid := by
+  decide
+
+/-! the model's answers -/
+example : eng.peerConns kclient kweb =
+    .ok ⟨false, some ⟨[⟨8080, 8080⟩], [], []⟩, some ⟨[⟨53, 53⟩], [], []⟩, none⟩ := by decide
+/-- `web` may only send to `blk`, so nothing reaches `client` -/
+example : eng.peerConns kweb kclient = .ok (ConnSet.mk' false) := by decide
+example : eng.peerConns kweb (.ip [⟨ipIn, ipIn⟩]) =
+    .ok ⟨false, some ⟨[⟨443, 443⟩], [], []⟩, none, none⟩ := by decide
+example : eng.peerConns kweb (.ip [⟨ipExcept, ipExcept⟩]) = .ok (ConnSet.mk' false) := by decide
+/-- `client` is not governed; an external address is never restricted -/
+example : eng.peerConns kclient (.ip [⟨ipIn, ipIn⟩]) = .ok (ConnSet.mk' true) := by decide
+example : eng.peerConns kweb kweb = .ok (ConnSet.mk' true) := by decide
+/-- a named port in an egress rule towards an IP block: the one failure -/
+example : ({ eng with netpols := [{ np with egress := [⟨[blk], [⟨none, .name "dns"⟩]⟩] }] } : Engine).peerConns
+    kweb (.ip [⟨ipIn, ipIn⟩]) = .error .namedPortOnIP := by decide
+
+/-! the specification's answers on the same pairs (`Spec.anpVerdict` sorts with `mergeSort`, which
+`decide` does not unfold; `Engine.anpVerdict_sorted` removes it on the engine's sorted list) -/
+example :
+    Spec.allowed eng.toView (kclient.toEnd 0) (kweb.toEnd 0) .TCP 8080 = true ∧
+    Spec.allowed eng.toView (kclient.toEnd 0) (kweb.toEnd 0) .TCP 8081 = false ∧
+    Spec.allowed eng.toView (kclient.toEnd 0) (kweb.toEnd 0) .UDP 53 = true ∧
+    Spec.allowed eng.toView (kweb.toEnd 0) (kclient.toEnd 0) .TCP 8080 = false ∧
+    Spec.allowed eng.toView (kweb.toEnd 0) (.ip ipIn) .TCP 443 = true ∧
+    Spec.allowed eng.toView (kweb.toEnd 0) (.ip ipExcept) .TCP 443 = false ∧
+    Spec.allowed eng.toView (kclient.toEnd 0) (.ip ipIn) .SCTP 7 = true ∧
+    Spec.allowed eng.toView (kclient.toEnd 0) (.ip ipIn) .SCTP 0 = false := by
+  simp only [Spec.allowed, Spec.allowedDir_eq, Engine.anpVerdict_sorted eng (by decide)]
+  decide
+
+/-- the theorem at work: facts about the model's result obtained from the specification alone -/
+example : ∃ c, eng.peerConns kclient kweb = .ok c ∧ c.WF ∧ c.den .TCP 8080 ∧ ¬ c.den .TCP 8081 := by
+  obtain ⟨c, hc⟩ := list_pods_never_fail eng (by decide) kclient kweb 0 0 (by decide) (by decide)
+    (by decide) rfl (by decide)
+  obtain ⟨hw, hden⟩ := list_exact_pair eng (by decide) kclient kweb 0 0 (by decide) (by decide)
+    (by decide) (by decide) c hc
+  refine ⟨c, hc, hw, (hden _ _).mpr ?_, fun h => ?_⟩
+  · simp only [Spec.allowed, Spec.allowedDir_eq, Engine.anpVerdict_sorted eng (by decide)]
+    decide
+  · have := (hden _ _).mp h
+    revert this
+    simp only [Spec.allowed, Spec.allowedDir_eq, Engine.anpVerdict_sorted eng (by decide)]
+    decide
+
+/-! IP ranges: `10.0.0.0 – 10.0.255.255` is uniform for the engine; `10.0.0.0 – 10.1.0.0` is not,
+and the model tells them apart -/
+example : eng.UniformOn ⟨167772160, 167837695⟩ := by
+  intro p hp
+  have : p = np := by simpa [eng] using hp
+  subst this
+  constructor
+  · intro r hr rp hrp c ex hc
+    have hr' : r = ⟨[.sel (some ⟨[("app", "client")], []⟩) none],
+        [⟨none, .name "http"⟩, ⟨some .UDP, .num 53 none⟩]⟩ := by simpa [np] using hr
+    subst hr'
+    have : rp = .sel (some ⟨[("app", "client")], []⟩) none := by simpa using hrp
+    subst this
+    cases hc
+  · intro r hr rp hrp c ex hc a b ha hb
+    have hr' : r = ⟨[blk], [⟨none, .num 443 none⟩]⟩ := by simpa [np] using hr
+    subst hr'
+    have : rp = blk := by simpa using hrp
+    subst this
+    cases hc
+    rw [NetPol.memL_ipBlockSet, NetPol.memL_ipBlockSet]
+    have e1 : (⟨0x0A000000, 8⟩ : Cidr).toIv = ⟨167772160, 184549375⟩ := by decide
+    have e2 : (⟨0x0A010000, 16⟩ : Cidr).toIv = ⟨167837696, 167903231⟩ := by decide
+    simp only [List.mem_singleton, forall_eq, e1, e2, Iv.mem] at ha hb ⊢
+    omega
+example : eng.peerConns kweb (.ip [⟨167772160, 167837695⟩]) =
+      .ok ⟨false, some ⟨[⟨443, 443⟩], [], []⟩, none, none⟩ ∧
+    eng.peerConns kweb (.ip [⟨167772160, 167837696⟩]) = .ok (ConnSet.mk' false) := by decide
+
+end Examples
 
 end Netpol.Properties.C01
